@@ -271,7 +271,13 @@ fn eval_stmt(
             let iter_val = eval_expr(context, scopes, iter)
                     .context(EvalForIterFailed)?;
 
+            let (_, (iter_line, iter_col)) = iter;
             let pairs = value_to_pairs(&iter_val.v)
+                    .map_err(|source| Error::AtLoc{
+                        source: Box::new(source),
+                        line: *iter_line,
+                        col: *iter_col,
+                    })
                     .context(ConvertForIterToPairsFailed)?;
 
             for (key, value) in pairs {
